@@ -1169,6 +1169,10 @@ def std_oracle(interp, env, f, args, t, bb, path):
         if isinstance(v, Agg) and v.name == "core::option::Option":
             return ok(v.fields[0]) if v.variant == "Some" else err(TOP)
         return TOP
+    if key in ("core::option::Option::cloned", "core::option::Option::copied") and args:
+        v = deref(a0)
+        if isinstance(v, Agg) and v.name == "core::option::Option":
+            return some(deref(v.fields[0])) if v.variant == "Some" else NONE
     if key in ("core::mem::drop", "core::mem::forget"):
         return Agg("tuple", None, None, [])
     if key in ("core::convert::TryFrom::try_from", "core::convert::TryInto::try_into") and len(args) == 1:
